@@ -90,7 +90,21 @@ func c15Loop(c *Ctx, h *handleModel) {
 	depthV := sev.frame.resolve(search.Call.Args[3])
 	phi, isPhi := depthV.(*ssa.Phi)
 	loopBad := ""
-	if !isPhi || phi.Parent() != process {
+	// the function that holds the iteration loop: the controller itself, or the helper of its family the loop
+	// was moved into (the controller then keeps set-up and deferred clean-up only)
+	loopFn := process
+	if sf := search.Parent(); sf != nil && sf != process {
+		inFam := false
+		for _, f := range funcFamily(process) {
+			if f == sf {
+				inFam = true
+			}
+		}
+		if inFam {
+			loopFn = sf
+		}
+	}
+	if !isPhi || phi.Parent() != loopFn {
 		loopBad = "the depth passed to Search is not the controller's loop variable: " + pathExpr(depthV)
 	} else {
 		iv, ok := inductionVar(phi)
@@ -153,7 +167,7 @@ func c15Loop(c *Ctx, h *handleModel) {
 	if pubBad == "" {
 		for _, s := range stores {
 			okEdge := false
-			for _, ge := range edgeGuards(s.topIns().Block()) {
+			for _, ge := range guardsAlongChain(s) {
 				bo, ok := ge.cond.(*ssa.BinOp)
 				if !ok || !(bo.Op == token.NEQ && !ge.pol || bo.Op == token.EQL && ge.pol) {
 					continue
@@ -163,6 +177,8 @@ func c15Loop(c *Ctx, h *handleModel) {
 						if ex, ok := side.(*ssa.Extract); ok && ex.Tuple == ssa.Value(search) {
 							okEdge = true
 						} else if c.provenance(process, side).via("Search") {
+							okEdge = true
+						} else if ins, isIns := side.(ssa.Instruction); isIns && ins.Parent() != nil && ins.Parent() != process && c.provenance(ins.Parent(), side).via("Search") {
 							okEdge = true
 						}
 					}
@@ -295,7 +311,7 @@ func c15Loop(c *Ctx, h *handleModel) {
 	}
 	var tests []exitTest
 	ident := func(v ssa.Value) ssa.Value { return v }
-	for _, b := range process.Blocks {
+	for _, b := range loopFn.Blocks {
 		ifi, ok := b.Instrs[len(b.Instrs)-1].(*ssa.If)
 		if !ok || !(leavesLoop(b.Succs[0]) && !leavesLoop(b.Succs[1])) {
 			continue
@@ -350,6 +366,11 @@ func c15Loop(c *Ctx, h *handleModel) {
 			}
 		}
 	}
+	// tests found in the loop's helper happen under the call chain that leads to it (the chain of the Search event)
+	var anchorChain []ssa.CallInstruction
+	if loopFn != process {
+		anchorChain = sev.Chain
+	}
 	for _, t := range tests {
 		bo := t.bo
 		x, y := stripConv(t.resolve(stripConv(bo.X))), stripConv(t.resolve(stripConv(bo.Y)))
@@ -365,7 +386,7 @@ func c15Loop(c *Ctx, h *handleModel) {
 		}
 		afterPub := false
 		for _, sg := range signals {
-			if flatBefore(sg, flatEv{Ins: t.anchor}) {
+			if flatBefore(sg, flatEv{Ins: t.anchor, Chain: anchorChain}) {
 				afterPub = true
 			}
 		}
@@ -619,4 +640,19 @@ func allDominatedBy(a, b ssa.Instruction, xs []ssa.Instruction) bool {
 		}
 	}
 	return true
+}
+
+// guardsAlongChain: the branch conditions under which the event happens - those of its own block and, when it
+// sits in a helper, those of every call on the chain from the root down to it.
+func guardsAlongChain(e flatEv) []guardEdge {
+	var res []guardEdge
+	if e.Ins != nil && e.Ins.Block() != nil {
+		res = append(res, edgeGuards(e.Ins.Block())...)
+	}
+	for _, site := range e.Chain {
+		if site != nil && site.Block() != nil {
+			res = append(res, edgeGuards(site.Block())...)
+		}
+	}
+	return res
 }
